@@ -123,6 +123,12 @@ impl World {
         rec.ev("eval_answered");
       }
       Err(_) => {
+        if should && self.pool[pt].as_bytes() == &[0u8; 32] {
+          // the neutral element is a degenerate request (the VOPRF specification lets a server
+          // refuse it); the statement is about tags - a refusal of THIS point is only counted
+          rec.ev("identity_point_refused");
+          return true;
+        }
         if should {
           rec.violation(
             "refuses-registered-unpunctured-tag",
@@ -621,6 +627,9 @@ fn concurrent(rec: &mut Rec, ctx: &Ctx, idx: u64, rng: &mut ChaCha20Rng) {
               if e.call < p.ret {
                 interleavings += 1;
               }
+            }
+            _ if pool[e.pt.min(pool.len() - 1)].as_bytes() == &[0u8; 32] => {
+              rec.ev("identity_point_refused");
             }
             _ => {
               rec.violation("concurrent:refusal-without-puncture", format!("registered tag {} refused although no puncture of it had been invoked ({})", e.tag, e.op), rp(e, "refusal without puncture"));
